@@ -439,7 +439,15 @@ func checkItCase(c itCase, rec *Rec) error {
 		err := drive(name, it.Next, func() any {
 			step++
 			if step%stride != 0 {
-				v := cp(it.Value())
+				live := it.Value()
+				v := cp(live)
+				// "You may modify the return value": do so, and read the same position again
+				for i := range live {
+					live[i] = -5
+				}
+				if again := cp(it.Value()); !eqInts(again, v) {
+					inner = fmt.Errorf("%s: Value = %v, and %v when read again after the caller modified the first result", name, v, again)
+				}
 				cnt := make([]int, len(c.M))
 				for _, x := range v {
 					if x < 0 || x >= len(c.M) {
